@@ -280,5 +280,24 @@ theorem mem_applyPerm {α : Type} {perm : List Nat} {l : List α} {x : α} (h : 
   obtain ⟨i, _, hi⟩ := h
   exact List.mem_of_getElem? hi
 
+/-- what `collate` returns before the shuffle: the generated masks followed by empty ones -/
+theorem collate_unfold {β : Type} {batch : β} {H W n k : Nat} {gens : List Gen} {perm : List Nat} {o : Out β}
+    (h : collate batch H W n k gens perm = .ok o) :
+    gens.length = k ∧ k ≤ n ∧ generateAll H W gens = .ok o.gens ∧ o.batch = batch ∧
+    o.masks = applyPerm perm (o.gens.map GenRes.mask ++ List.replicate (n - k) (zeros H W)) := by
+  unfold collate at h
+  by_cases h1 : gens.length ≠ k
+  · simp [h1] at h
+  · simp only [h1, if_false] at h
+    by_cases h2 : k > n
+    · simp [h2] at h
+    · simp only [h2, if_false] at h
+      cases hg : generateAll H W gens with
+      | error e => simp [hg] at h
+      | ok rs =>
+        simp only [hg, Except.ok.injEq] at h
+        subst h
+        exact ⟨by simpa using h1, by omega, rfl, rfl, rfl⟩
+
 end Dino
 end KDVerif.Masks
